@@ -1,0 +1,41 @@
+// Copyright ©2026 The Gonum Authors. All rights reserved.
+// Use of this source code is governed by a BSD-style
+// license that can be found in the LICENSE file.
+
+//go:build verif
+
+package uid
+
+// Machine-checked contracts for the ID pool (verification hook, build tag
+// verif; this file contains comments only). See /verif/DESIGN.md.
+//
+// setInv is the representation invariant: used and free are disjoint and
+// every used ID is at most maxID. It is established by NewSet and preserved by
+// every method, hence holds after every history of operations; NewID then
+// returns an ID that is not in use.
+
+//@ spec setInv(s *Set) bool = s != nil && s.used != nil && s.free != nil && s.used != s.free && forall(x, has(s.used, x) ==> !has(s.free, x) && x <= s.maxID)
+
+//@ func NewSet props: C12
+//@ ensures setInv(result)
+//@ ensures forall(x, !has(result.used, x))
+//@ ensures fresh(result) && fresh(result.used) && fresh(result.free)
+
+//@ func Set.NewID props: C12
+//@ requires setInv(s)
+//@ requires s.maxID != Max || exists(x, 0, Max, !has(s.used, x))
+//@ ensures !has(s.used, result)
+//@ ensures setInv(s)
+//@ loop 2: invariant id >= 0 && forall(x, 0, id, has(s.used, x))
+
+//@ func Set.Use props: C12
+//@ requires setInv(s)
+//@ modifies s.used, s.free, s.maxID
+//@ ensures setInv(s)
+//@ ensures forall(x, has(s.used, x) == (old(has(s.used, x)) || x == id))
+
+//@ func Set.Release props: C12
+//@ requires setInv(s)
+//@ modifies s.used, s.free
+//@ ensures setInv(s)
+//@ ensures forall(x, has(s.used, x) == (old(has(s.used, x)) && x != id))
